@@ -48,9 +48,22 @@ def zoo_task(names):
         for seed in (0, 1):
             try:
                 m32 = zoo.prepare(e, e.build(seed), seed)
-                m64 = e.build(seed + 50)
-                m64.load_state_dict(m32.state_dict())
-                m64 = m64.double()
+                if seed == 1 and e.kind == "transform" and e.has("inv"):
+                    # the float64 twin as users get it: a single-precision model that has already been used
+                    # (evaluation mode, inverse direction first - what sampling does) and is then converted
+                    m64 = zoo.prepare(e, e.build(seed), seed)
+                    m64.eval()
+                    with torch.no_grad():
+                        c_ = e.ctx(6, seed)
+                        try:
+                            m64.inverse(e.y(6, seed), c_) if c_ is not None else m64.inverse(e.y(6, seed))
+                        except Exception:  # noqa  (reported by the inverse direction below)
+                            pass
+                    m64 = m64.double()
+                else:
+                    m64 = e.build(seed + 50)
+                    m64.load_state_dict(m32.state_dict())
+                    m64 = m64.double()
             except Exception as ex:  # noqa
                 out["skipped"].append("%s: %r" % (name, ex))
                 break
